@@ -34,3 +34,5 @@ def run(ctx, rep):
     from ..rules import more5
     more5.rule_busy_walk(mod, rep)
     more5.rule_supno_done(mod, rep)
+    from ..rules import more6
+    more6.rule_fb_fresh(mod, rep)
